@@ -112,6 +112,11 @@ impl Engine for InFlightEngine {
         self.now = T0;
         self.classic = case_key & 1 == 1;
         self.conns = (0..n).map(|i| live_conn(i, self.now)).collect();
+        // windows next to the floor and off the 100-grid as well as the default: the NAK decrement is `100, floored
+        // at 1000` from anywhere
+        for (i, c) in self.conns.iter_mut().enumerate() {
+            c.window = [20_000, 20_000, 1000, 1001, 1029, 1099, 1100, 1101, 1150, 3000][(mix(case_key ^ (i as u64) << 20) % 10) as usize];
+        }
         self.tracker = SequenceTracker::new();
         self.nak_mode = false;
         if cfg.get("nak").and_then(Value::as_bool).unwrap_or(false) {
@@ -347,6 +352,12 @@ impl Engine for InFlightEngine {
             json!({"ev": "Reset", "l": l, "kind": rng.random_range(0..3)})
         };
         Some(ev)
+    }
+
+    /// the model's observation must be contained in the real one, and the real object must be internally
+    /// consistent (in-flight count = size of the log; a NAK charge is exactly one loss, -100 floored, one slot)
+    fn matches(&self, expected: &Value, got: &Value) -> bool {
+        crate::util::json_sub(expected, got) && got.get("inconsistent") != Some(&json!(true))
     }
 
     fn counters(&self) -> Value {
